@@ -162,8 +162,12 @@ def directed(rng: random.Random) -> dict:
                  {"k": "macro", "n": "framed", "ps": ["pcode"], "b": [db(2), {"k": "splice", "n": "pcode"}, db(3)]},
                  {"k": "macro", "n": "repeatm", "ps": ["pn", "pbody"], "b": [{"k": "for", "v": "itR", "a": E(0), "b": E("pn"), "body": [{"k": "splice", "n": "pbody"}]}]},
                  {"k": "macro", "n": "twice", "ps": ["pbody"], "b": [{"k": "splice", "n": "pbody"}, db(0x7E), {"k": "splice", "n": "pbody"}]}]
+        # each expansion wrapped in braces of its own, the block's label directly in the block (a loop): every copy has its own label
+        lblk = {"blk": [{"k": "label", "n": "againq"}, {"k": "data", "d": "dl", "es": [E("againq")]}, nop, {"k": "ins", "m": "bne", "shape": "rel", "sz": "", "e": E("againq")}]}
+        body += [{"k": "macro", "n": "twice_braced", "ps": ["pbody"], "b": [{"k": "block", "b": [{"k": "splice", "n": "pbody"}]}, db(0x7D), {"k": "block", "b": [{"k": "splice", "n": "pbody"}]},
+                                                                            {"k": "if", "c": E(1), "t": [{"k": "block", "b": [{"k": "splice", "n": "pbody"}]}]}]}]
         body += rng.choice([[{"k": "call", "n": "repeatm", "as": [E(3), blk]}], [{"k": "call", "n": "framed", "as": [blk]}, {"k": "call", "n": "framed", "as": [blk]}],
-                            [{"k": "call", "n": "twice", "as": [blk]}], [{"k": "for", "v": "itO", "a": E(0), "b": E(2), "body": [{"k": "call", "n": "framed", "as": [blk]}]}]])
+                            [{"k": "call", "n": "twice", "as": [blk]}], [{"k": "call", "n": "twice_braced", "as": [lblk]}], [{"k": "call", "n": "twice_braced", "as": [lblk]}, {"k": "call", "n": "twice_braced", "as": [blk]}], [{"k": "for", "v": "itO", "a": E(0), "b": E(2), "body": [{"k": "call", "n": "framed", "as": [blk]}]}]])
         body += [db(0xEE)]
     elif kind == "named_scope_in_body":
         # a named scope inside the body belongs to one application: its qualified names are local to it
